@@ -13,6 +13,7 @@ import (
 	"verif/harness/copyx"
 	"verif/harness/gen"
 	"verif/harness/inst"
+	"verif/harness/regmodel"
 	"verif/harness/vt"
 )
 
@@ -197,6 +198,57 @@ func genDiamond(t *rapid.T) copyx.Case {
 	return c
 }
 
+// genMountFault: the destination is a remote repository (registry model) that can be
+// asked to mount blobs from sibling repositories; MountFrom answers 1-3 candidates
+// per blob, most of which cannot provide it, so the copy falls back to fetching from
+// the source - where one fault waits.
+func genMountFault(t *rapid.T) copyx.Case {
+	c := copyx.GenBase(t, gen.DAGOpts{MaxNodes: 12, NoForeign: true, NoDocker: true, OnlySHA256: true, SingleMT: true, UniqueBytes: true, NoAbsent: true, NoBlobSubj: true, NoBigBlobs: true, BlobRich: true}, []string{"memory"}, []string{"remote"})
+	c.SrcKind, c.DstKind = "memory", "remote"
+	d := gen.Build(c.Specs)
+	best, bestN := c.Root, -1
+	for _, id := range d.CanonIDs() {
+		n := 0
+		for r := range d.Reach(id, true) {
+			if !d.IsManifest(r) {
+				n++
+			}
+		}
+		if n > bestN {
+			best, bestN = id, n
+		}
+	}
+	c.Root = best
+	c.API = "copygraph"
+	c.UseMount = true
+	c.Callbacks = rapid.Bool().Draw(t, "callbacks")
+	c.Conc = rapid.SampledFrom([]int{1, 2, 3, 0}).Draw(t, "conc")
+	c.DstProfile = regmodel.Profile{StrictBlobs: true, MountCreated: rapid.Bool().Draw(t, "mountSupported")}
+	var blobs []int
+	var held []int
+	for _, id := range gen.SortedKeys(d.Reach(c.Root, true)) {
+		if d.IsManifest(id) {
+			continue
+		}
+		blobs = append(blobs, id)
+		k := rapid.IntRange(1, 3).Draw(t, "nRepos")
+		repos := rapid.SliceOfNDistinct(rapid.SampledFrom([]string{"lib/a", "lib/empty", "lib/missing", "lib/other"}), k, k, rapid.ID[string]).Draw(t, "repos")
+		c.MountFrom = append(c.MountFrom, copyx.MountSpec{Node: id, Repos: repos})
+		if rapid.IntRange(0, 3).Draw(t, "held") == 0 {
+			held = append(held, id)
+		}
+	}
+	if len(held) > 0 {
+		c.Holds = []copyx.HoldSpec{{Repo: "lib/a", Nodes: held}}
+	}
+	if len(blobs) == 0 {
+		blobs = []int{c.Root}
+	}
+	node := rapid.SampledFrom(blobs).Draw(t, "faultNode")
+	c.Faults = []inst.Fault{{Side: "src", Op: "Fetch", Node: node, When: rapid.SampledFrom([]string{"before", "after", "mid"}).Draw(t, "when"), Kind: "error"}}
+	return c
+}
+
 func runCase(c copyx.Case) (res vt.Result, fail *vt.Fail) {
 	e, f := copyx.Setup(&c)
 	if f != nil {
@@ -329,6 +381,7 @@ func TestMain(m *testing.M) {
 	vt.Main(m, "C02",
 		vt.NewLeg("main", 1200, 4000, 16, genCase, runCase),
 		vt.NewLeg("diamond", 400, 1500, 8, genDiamond, runCase),
+		vt.NewLeg("mount", 300, 1200, 4, genMountFault, runCase),
 	)
 }
 
